@@ -18,7 +18,7 @@ vars == <<sh, sg, chk, lastkf, hung, hist>>
 
 \* statistics / id counters and the cumulative accounting only ever move by deltas that do
 \* not depend on their value, and nothing visible depends on them: hidden from the fingerprint
-View == <<[sh EXCEPT !.st = EmptyStats, !.gen = 0], sg.gone, chk, lastkf, hung, Len(hist)>>
+View == <<[sh EXCEPT !.st = EmptyStats, !.gen = 0], sg.gone, sg.allowed, chk, lastkf, hung, Len(hist)>>
 
 Mk(s, i) == [id |-> i, kind |-> s.kind, vis |-> s.vis, hid |-> s.hid, thr |-> s.thr, amt |-> s.amt,
              auto |-> s.auto, ts |-> s.ts, side |-> s.side,
@@ -41,7 +41,7 @@ CallsFrom(s) ==
 \* TLC (1.8) cannot write a lazily evaluated function to its disk queue unless fingerprinting has
 \* evaluated it; the fields hidden by VIEW are never fingerprinted, so they are forced here
 Force(g) == [g EXCEPT !.supplied = TLCEval(@), !.executed = TLCEval(@), !.back = TLCEval(@), !.disc = TLCEval(@),
-                      !.gone = TLCEval(@), !.issued = TLCEval(@)]
+                      !.gone = TLCEval(@), !.issued = TLCEval(@), !.allowed = TLCEval(@)]
 
 Init == /\ sh = EmptyShared /\ sg = SeqGhostInit(EmptyMap)
         /\ chk = {} /\ lastkf = {} /\ hung = FALSE /\ hist = <<>>
@@ -63,6 +63,8 @@ Spec == Init /\ [][Next]_vars
 
 Inv_C01 == "C01" \notin chk
 Inv_C02 == "C02" \notin chk
+\* in the model of the code every surplus ticket is accounted for by a removal by id (non-vacuity of LegitTickets)
+Inv_Legit == LegitTickets(sg, sh)
 Inv_C04 == "C04" \notin chk          \* every deviation from the ideal order is one of the two named ones
 Inv_C04raw == lastkf = {}            \* expected to FAIL: witnesses of D5 / D6
 Inv_C04rawStale == "KF-C04-2" \notin lastkf
